@@ -33,6 +33,9 @@ type Case struct {
 	Queue       int     `json:"queue"`
 	AfterLast   string  `json:"provider_after_last"`
 	Repeat      int     `json:"repeat"`
+	// ViaConfig: the pool's schedule factory is what config decoding produces from the profile's config map (as in a
+	// real run: one decoded section, the factory called once per instance with rps-per-instance), not a constructor call.
+	ViaConfig bool `json:"profile_via_config"`
 }
 
 var profOpts = sg.Opts{MaxDepth: 2, MaxChildren: 4, MaxLeafTok: 25, MinDur: time.Millisecond, MaxDur: 8 * time.Millisecond}
@@ -75,6 +78,7 @@ func genCase(t *rapid.T) Case {
 	c.Queue = rapid.SampledFrom([]int{0, 1, 64}).Draw(t, "queue")
 	c.AfterLast = rapid.SampledFrom([]string{"return", "wait_ctx"}).Draw(t, "afterLast")
 	c.Repeat = 3
+	c.ViaConfig = sg.ConfigOK(c.Profile) && rapid.Bool().Draw(t, "viaConfig")
 	return c
 }
 
@@ -115,8 +119,26 @@ func once(c Case, o *vf.Obs, classify bool) error {
 	guns := fake.NewGunWorld(fake.GunPlan{ShotUs: c.ShotUs, PanicAtShot: -1, FactoryErrAt: -1, BindErrAt: -1, Closer: true})
 	aggr := fake.NewAggregator(fake.AggPlan{})
 	m := pand.Metrics()
+	var factory func() (core.Schedule, error)
+	if c.ViaConfig {
+		var holder struct {
+			F func() (core.Schedule, error) `config:"rps"`
+		}
+		if err := pand.Decode(map[string]any{"rps": sg.ConfigMap(c.Profile)}, &holder); err != nil {
+			return fmt.Errorf("valid schedule config rejected: %v", err)
+		}
+		factory = holder.F
+	}
 	newSched := func() (core.Schedule, error) {
-		s := sg.Build(c.Profile)
+		var s core.Schedule
+		if factory != nil {
+			var err error
+			if s, err = factory(); err != nil {
+				return nil, err
+			}
+		} else {
+			s = sg.Build(c.Profile)
+		}
 		s.Start(time.Now().Add(-time.Duration(c.PastMs) * time.Millisecond))
 		return s, nil
 	}
@@ -198,6 +220,8 @@ func once(c Case, o *vf.Obs, classify bool) error {
 		o.ClassIf(!c.PerInstance, "shared")
 		o.ClassIf(discarded > 0, "discards")
 		o.ClassIf(c.Profile.Kind == "composite", "composite_profile")
+		o.ClassIf(c.ViaConfig, "profile_via_config")
+		o.ClassIf(c.ViaConfig && c.PerInstance && c.Profile.Kind == "composite" && started >= 2, "per_instance_composite_via_config")
 		o.ClassIf(unfired > 0, "unfired_ammo")
 		o.ClassIf(started < c.Instances, "start_cut_short")
 		if c.Instances >= 2 && want >= c.Instances {
@@ -211,6 +235,7 @@ func once(c Case, o *vf.Obs, classify bool) error {
 }
 
 func TestAccounting(t *testing.T) {
+	pand.Init()
 	r := vf.Start(t, "C03")
 	vf.Check(r, genCase, check)
 }
